@@ -80,8 +80,9 @@ fn fill(seed: u64, bank: usize) -> Vec<u8> {
 }
 
 pub fn excluded(addr: u16) -> bool {
-    // system variables (the ROM epilogue and a possible interrupt use them) and the stack/stub page
-    (0x5C00..0x5CC0).contains(&addr) || (0xBD00..0xC000).contains(&addr)
+    // system variables (the ROM epilogue and a possible interrupt use them; the 128K's interrupt
+    // routine keeps its keypad state in 0x5B00-0x5BFF) and the stack/stub page
+    (0x5B00..0x5CC0).contains(&addr) || (0xBD00..0xC000).contains(&addr)
 }
 
 /// Resolve a request against the block it will meet.
